@@ -734,6 +734,10 @@ func (g *Gen) allocatedFact(h Heap, term string, t types.Type) []string {
 	al := g.heapGet(h, g.allocRegion())
 	switch u := t.Underlying().(type) {
 	case *types.Pointer:
+		if !isStruct(u.Elem()) && g.ownT(t, "x") != "x" {
+			// may point into a struct field (negative address): allocated iff its owner is
+			return []string{fmt.Sprintf("(or (>= %s 0) (= %s (paddr (pinv1 %s) (pinv2 %s))))", term, term, term, term), fmt.Sprintf("(=> (not (= %s 0)) (select %s (own %s)))", term, al, term)}
+		}
 		out := []string{fmt.Sprintf("(>= %s 0)", term), fmt.Sprintf("(=> (not (= %s 0)) (select %s %s))", term, al, term)}
 		if isStruct(u.Elem()) {
 			// Go's type safety: a non-nil *T points to an object allocated as a T
@@ -1027,7 +1031,7 @@ func (g *Gen) enterLoop(li *loopInfo, st *BState, phiEntry map[*ssa.Phi]string) 
 		} else if !ws[k] && (r.Kind == "field" || r.Kind == "cell" || r.Kind == "elem" || r.Kind == "mapdom" || r.Kind == "mapval" || r.Kind == "maplen") {
 			// written only on objects allocated inside the loop: everything allocated before keeps its value
 			al := g.heapGet(preHeap, g.allocRegion())
-			g.assume(st, fmt.Sprintf("(forall ((r Int)) (! (=> (or (select %s r) %s) (= (select %s r) (select %s r))) :pattern ((select %s r))))", al, g.notFreshOf(r, st.heap), n, old, n))
+			g.assume(st, fmt.Sprintf("(forall ((r Int)) (! (=> (or (select %s %s) %s) (= (select %s r) (select %s r))) :pattern ((select %s r))))", al, g.ownR(r, "r"), g.notFreshOf(r, st.heap), n, old, n))
 		}
 	}
 	phiVals := map[*ssa.Phi]string{}
